@@ -213,7 +213,13 @@ impl Array {
     }
 
     fn val_iter(&self) -> impl Iterator<Item = &Val> {
-        self.arr.iter().chain(self.dict.values())
+        // dictionary entries in the same (sorted) order `Display` uses, not hasher order
+        self.arr.iter().chain(
+            self.dict
+                .iter()
+                .sorted_unstable_by_key(|(k, _)| ToString::to_string(*k))
+                .map(|(_, v)| v),
+        )
     }
 
     fn is_empty(&self) -> bool {
